@@ -193,6 +193,16 @@ DeletionSafe(O, E, D) ==
 
 BracketsConsistent(O, E) == DeletionSafe(O, E, MustReport(O, E))
 
+\* Objects that one spec may declare together: `var a, b T` (package-level variables of one
+\* declared type) and `a, b T` (fields of one struct with one type).  Refs, Needs, MustReport
+\* and DeletionSafe are defined on objects, so the brackets do not depend on how objects are
+\* grouped into specs; the conformance step renders every graph with a non-empty ShareSpec
+\* both ways (one name per spec / adjacent related objects in one spec) and judges both.
+ShareSpec(O) == { p \in Idx(O) \X Idx(O) :
+                    /\ p[1] < p[2] /\ O[p[1]].k = O[p[2]].k /\ O[p[1]].ty = O[p[2]].ty
+                    /\ \/ O[p[1]].k = "var"
+                       \/ O[p[1]].k = "field" /\ O[p[1]].ow = O[p[2]].ow }
+
 -----------------------------------------------------------------------------
 (* Part 3: rule model of the use / own graph (root = 0)                    *)
 
@@ -206,13 +216,21 @@ UnitOf(O, i) == IF O[i].k = "cgm" THEN FirstCgm(O)
                 ELSE IF IsInner(O[i]) THEN O[i].ow ELSE i
 Members(O, u) == { i \in Idx(O) : UnitOf(O, i) = u }
 
-RECURSIVE HasExportedField(_, _, _)
+\* structs reachable from the structs in S through embedded fields (the walk stops at non-structs);
+\* a closure instead of a recursion over paths, so that embedding cycles cost nothing
+RECURSIVE EmbClosure(_, _)
+EmbClosure(O, S) ==
+  LET n == S \cup { x \in { Res(O, O[e].ty) : e \in UNION { Embeds(O, s) : s \in S } } :
+                      x # 0 /\ O[x].k = "struct" }
+  IN IF n = S THEN S ELSE EmbClosure(O, n)
+
+\* (6.5) t or a struct it embeds, recursively, has an exported (embedded) field; `fuel` is kept for
+\* the callers and no longer needed
 HasExportedField(O, t, fuel) ==
   /\ t # 0
   /\ O[t].k = "struct"
-  /\ \/ \E f \in Fields(O, t) : O[f].ex
-     \/ \E e \in Embeds(O, t) : O[e].ex
-     \/ fuel > 0 /\ \E e \in Embeds(O, t) : HasExportedField(O, Res(O, O[e].ty), fuel - 1)
+  /\ \E s \in EmbClosure(O, {t}) : \/ \E f \in Fields(O, s) : O[f].ex
+                                     \/ \E e \in Embeds(O, s) : O[e].ex
 
 BodyUse(O, e) ==
   CASE e.r = "write" /\ O[e.b].k = "var" -> {}                         \* (9.7)
@@ -368,8 +386,13 @@ Cands(O) ==
   \cup { Rec("cgm", x, 0, 0, 0) : x \in BOOLEAN }
   \cup { Rec("tparam", FALSE, s, 0, 0) : s \in OfKind(O, {"func", "struct"}) }
 
+\* focus hook of the generation configs: a config may restrict the candidates further by
+\* overriding this definition (`CandOK <- MCCandEmbed`); the default admits everything
+CandOK(O, o) == TRUE
+
 CanAdd(O, o) ==
   /\ o.k \in SeqSet(KindSeq)
+  /\ CandOK(O, o)
   /\ (o.ex /\ o.k # "embed") => o.k \in ExKinds
   /\ (NeedRoot /\ Len(O) = 0) => (o.k = "func" /\ o.ex)
   /\ Len(O) < MaxObj
@@ -569,6 +592,7 @@ Emit ==
   PrintT("CASE " \o ToJson(
     [ objs |-> objs, edges |-> edges,
       must |-> MustReport(objs, edges),
+      share |-> ShareSpec(objs),
       model |-> LET st == Status(objs, Idx(objs), AllUse(objs, edges, Units(objs)))
                 IN [ i \in Idx(objs) |-> st[i] ] ]))
 =============================================================================
